@@ -55,12 +55,22 @@ const (
 )
 
 // lifetimes (maximum token lifetime handed to FetchNodeCredentials; the default is the option being absent)
-var tokensLifeNames = []string{"30m", "1d", tokensDefault, "30d", "1000d"}
-var tokensLives = map[string]time.Duration{"30m": 30 * time.Minute, "1d": tokensDay, tokensDefault: 14 * tokensDay, "30d": 30 * tokensDay, "1000d": 1000 * tokensDay}
+// "0s" and "-1h" are settings under which every token is past its lifetime (a
+// token's age is positive as soon as any time has passed; a fresh token under
+// 0s is left unconstrained, an instant is not an age the harness can produce)
+var tokensLifeNames = []string{"-1h", "0s", "30m", "1d", tokensDefault, "30d", "1000d"}
+var tokensLives = map[string]time.Duration{"-1h": -time.Hour, "0s": 0, "30m": 30 * time.Minute, "1d": tokensDay, tokensDefault: 14 * tokensDay, "30d": 30 * tokensDay, "1000d": 1000 * tokensDay}
 
-// ages sealed into a token (every |age - lifetime| is >= 30 min)
-var tokensAgeNames = []string{"fresh", "1h", "13d", "15d", "400d"}
-var tokensAges = map[string]time.Duration{"fresh": 0, "1h": time.Hour, "13d": 13 * tokensDay, "15d": 15 * tokensDay, "400d": 400 * tokensDay}
+// ages sealed into a token: every |age - lifetime| is >= 1 min, and the
+// expectation "must succeed" additionally requires that the wall-clock time
+// spent since the age was sealed leaves 30 s of margin (tokensMargin); ages
+// one to four minutes past a lifetime lie inside the default clock skews, which
+// have no say in token expiry
+var tokensAgeNames = []string{"fresh", "29m", "31m", "1h", "13d", "14d-1m", "14d+1m", "14d+4m", "15d", "400d"}
+var tokensAges = map[string]time.Duration{"fresh": 0, "29m": 29 * time.Minute, "31m": 31 * time.Minute, "1h": time.Hour, "13d": 13 * tokensDay,
+	"14d-1m": 14*tokensDay - time.Minute, "14d+1m": 14*tokensDay + time.Minute, "14d+4m": 14*tokensDay + 4*time.Minute, "15d": 15 * tokensDay, "400d": 400 * tokensDay}
+
+const tokensMargin = 30 * time.Second
 
 // tamper kinds. With a storage wrapper the record stays sealed (wrapping_key_id
 // kept); without a wrapper the edits change the stored plain time.
@@ -214,12 +224,13 @@ type tkTok struct {
 	state       *structpb.Struct
 	ageName     string // age last sealed for this token through the library
 	age         time.Duration
-	ageKnown    bool   // false after the stored plain time was edited (no wrapper)
-	blob        tkBlob // what the stored record carries now
-	lastTamper  string // last raw edit since the library last wrote the record ("" = none)
-	present     bool   // record in storage (read back after every use)
-	enrolled    int    // successful enrollments with this token
-	consumedSeq int    // recording sequence number at the start of the enrolling fetch
+	ageKnown    bool      // false after the stored plain time was edited (no wrapper)
+	agedAt      time.Time // when the age was sealed (creation for fresh tokens)
+	blob        tkBlob    // what the stored record carries now
+	lastTamper  string    // last raw edit since the library last wrote the record ("" = none)
+	present     bool      // record in storage (read back after every use)
+	enrolled    int       // successful enrollments with this token
+	consumedSeq int       // recording sequence number at the start of the enrolling fetch
 }
 
 // broken: the record does not carry a sealed creation time of this token
@@ -325,7 +336,7 @@ func (h *tkRun) doCreate(st *tkStep) {
 		r.Count("step-skipped", 1)
 		return
 	}
-	t := &tkTok{idx: len(h.toks), ageName: "fresh", ageKnown: true}
+	t := &tkTok{idx: len(h.toks), ageName: "fresh", ageKnown: true, agedAt: time.Now()}
 	t.blob = tkBlob{owner: t.idx, ageName: "fresh"}
 	var extra []nodeenrollment.Option
 	if st.State {
@@ -432,6 +443,7 @@ func (h *tkRun) doAge(st *tkStep) {
 		return
 	}
 	t.age, t.ageName, t.ageKnown = age, st.Age, true
+	t.agedAt = time.Now()
 	t.blob = tkBlob{owner: t.idx, age: age, ageName: st.Age}
 	t.lastTamper = ""
 	r.Count("step:age", 1)
@@ -660,14 +672,17 @@ func (h *tkRun) doUse(st *tkStep) {
 	if broken != "" {
 		sealedAge, sealedAgeName = t.age, t.ageName
 	}
-	if t.ageKnown && broken == "" && sealedAge > life {
+	if t.ageKnown && broken == "" && (sealedAge > life || life < 0) {
 		reasons = append(reasons, "expired")
 	}
+	// a token that is not expired by its sealed age must be accepted only if it
+	// is still clearly inside the lifetime now (the run itself takes time)
+	insideNow := life > 0 && sealedAge+time.Since(t.agedAt)+tokensMargin < life
 	if k.registered != "" {
 		reasons = append(reasons, "registered-key:"+k.registered)
 	}
 	mustFail := len(reasons) > 0
-	mustSucceed := !mustFail && !t.tampered() && t.ageKnown && !removeFail
+	mustSucceed := !mustFail && !t.tampered() && t.ageKnown && !removeFail && insideNow
 	expect := "unconstrained"
 	switch {
 	case mustFail:
@@ -1091,7 +1106,9 @@ func tokensHex(rng *rand.Rand, n int) string {
 	return hex.EncodeToString(b)
 }
 
-func tokensExpired(age, life string) bool { return tokensAges[age] > tokensLives[life] }
+func tokensExpired(age, life string) bool {
+	return tokensAges[age] > tokensLives[life] || tokensLives[life] < 0
+}
 
 // tokensTamperStep fills in the parameters of a tamper step
 func tokensTamperStep(rng *rand.Rand, tok int, kind string, src int) tkStep {
